@@ -29,12 +29,12 @@ META = {
 NPM = 'Scalibr.Npm.'
 POM = 'Scalibr.Pom.'
 THEOREMS = [NPM + 'C13_npm_escape', NPM + 'C13_npm_roundtrip_partial', NPM + 'C13_npm_identity', NPM + 'C13_npm_no_silent_success',
-            NPM + 'C13_npm_present_applied', NPM + 'C13_npm_alias_at_witness', NPM + 'C13_npm_alias_separate_fixed_witness', NPM + 'C13_npm_read_complete', NPM + 'C13_npm_read_complete_old_witness', NPM + 'C13_npm_absent_key_witness', NPM + 'C13_npm_every_update_applied',
+            NPM + 'C13_npm_present_applied', NPM + 'C13_npm_alias_at_witness', NPM + 'C13_npm_alias_separate_fixed_witness', NPM + 'C13_npm_read_complete', NPM + 'C13_npm_read_complete_old_witness', NPM + 'C13_npm_absent_key_witness',
             NPM + 'C13_npm_bytes_partial', NPM + 'C13_npm_bytes_untouched_partial', NPM + 'C13_npm_bytes_identity',
             POM + 'C13_pom_props_total', POM + 'C13_pom_props_fuel_adequate', POM + 'C13_pom_props_sound', POM + 'C13_pom_props_repeated_name_fixed',
             POM + 'C13_pom_props_fixed_witnesses', POM + 'C13_pom_identity', POM + 'C13_pom_invalid_name_error',
             POM + 'C13_pom_literal_roundtrip_partial', POM + 'C13_pom_no_silent_success_partial',
-            POM + 'C13_pom_class_witnesses', POM + 'C13_pom_origin_fixed_witnesses', POM + 'C13_pom_ignores_version_from_witness', POM + 'C13_pom_other_profile_witness', POM + 'C13_pom_fixed_witnesses',
+            POM + 'C13_pom_class_witnesses', POM + 'C13_pom_ignores_version_from_witness', POM + 'C13_pom_other_profile_witness', POM + 'C13_pom_fixed_witnesses',
             POM + 'C13_pom_project_key_fixed_witness', POM + 'C13_pom_key_property_witness',
             'Scalibr.PomTok.C13_pom_tokens_identity_partial', 'Scalibr.PomTok.C13_pom_tokens_fuel_adequate', 'Scalibr.PomTok.C13_pom_tokens_comment_witness']
 
@@ -141,10 +141,7 @@ def run(ctx):
             if r.startswith('ok-missing') or r == 'ok-rereaderr':
                 return 'pom.xml Write, local parent chain: ' + r + ' (every file of the chain must be written next to the output and read back)'
             if r == 'ok':
-                want = fm.get('spec')
-                if fi.get('added', '-') not in ('-', ''):      # requirements that did not exist: a dependencyManagement entry of the manifest each
-                    want = ','.join(sorted([x for x in (want or '-').split(',') if x != '-'] + fi['added'].split(',')))
-                if fi.get('chain') != want:
+                if fi.get('chain') != fm.get('spec'):
                     return 'pom.xml, local parent chain: re-read requirements of the child (parents merged) differ from substitute(original, updates)'
                 if fi.get('same') != '1':
                     return 'pom.xml, local parent chain: a pom of the chain that no update addresses is not byte-identical'
@@ -186,7 +183,7 @@ def run(ctx):
                 if case.split(' ')[4] == '-':
                     if fi.get('tok') != '1':
                         return 'pom.xml: no updates, but the token sequence (elements, attributes, text, comments) changed'
-                    if op in ('pom', 'pome', 'pomf') and fi.get('id') != '1':
+                    if op in ('pom', 'pome', 'pomf', 'poma') and fi.get('id') != '1':
                         return 'pom.xml: no updates and nothing special inside <version>, but the bytes written differ from the bytes read'
                 elif fi.get('rest') != '1':
                     return 'pom.xml: bytes outside <version> / property values changed'
@@ -204,10 +201,19 @@ def run(ctx):
             if c.get('UpInherited', 0) > 0 and fi.get('r') == 'ok' and '0' not in fi.get('applied', '-'):
                 return 'C13/pom-inherited-dependency'
             return None
-        if op in ('pch', 'nws'):
+        if op == 'pch':
+            # class predicate of C13/pom-parent-path-at: a directory of the chain has "@" in its name (field AtDir) and an update goes to a parent
+            import json as _json
+            c = _json.loads(bytes.fromhex(case.split(' ')[1]))
+            if c.get('AtDir') and fi.get('r') == 'ok':
+                return 'C13/pom-parent-path-at'
+            return None
+        if op == 'nws':
             return None
         if op == 'pomc' and case.split(' ')[4] == '-':
             return 'C13/pom-version-comment'
+        if op == 'poma' and case.split(' ')[4] == '-':
+            return 'C13/pom-attributes-dropped'
         if op == 'ws':
             return fm['cls'] if fm.get('cls', '-') != '-' else None
         if op.startswith('pom') and fm.get('cls', '-') != '-':
